@@ -1268,3 +1268,27 @@ FUNCTIONS += [
                                                (r'^const auto size = REMAINING$', 'let size := it.length')],
          stmt_rules=EL_COMMON['stmt_rules'] + [(r'^std::advance\(it, size - num_values\)$', 'it := it.drop (size - num_values)')]),
 ]
+
+# ----------------------------------------------------------------------------------------------
+# the RETURN path (C08): return_handler_t::call -> trace_return<Ret>(agent, func, params) -> func(params), once
+
+FUNCTIONS += [
+    dict(
+        name='return_handler_call', cxx='return_handler_t<Sig, T>::call', file=MOCK, module='ReturnHandlerCall',
+        header=r'class return_handler_t : public return_handler<Sig>.*?\n\s*call\(\s*trace_agent& agent,\s*call_params_type_t<Sig>& params\)\s*override',
+        pre=[(r'trace_return<return_of_t<Sig>>\(agent, func, params\)', 'TRACE_RETURN(agent, func, params)')],
+        lean_sig=': List Act', acts=True, prologue=['let mut acts : List Act := []'], epilogue='return acts', void_result='acts',
+        ret_rules=[(r'^TRACE_RETURN\(agent, func, params\)$', 'acts ++ [Act.stmt "return trace_return<Ret>(agent, func, params)"]')],
+    ),
+    dict(
+        name='trace_return_void', cxx='trompeloeil::trace_return<void>(agent, func, params)', file=MOCK, module='TraceReturnVoid',
+        header=r'\n\s*trace_return\(\s*trace_agent const&,\s*F& func,\s*P& params\)',
+        lean_sig=': List Act', acts=True, prologue=['let mut acts : List Act := []'], epilogue='return acts', void_result='acts',
+    ),
+    dict(
+        name='trace_return_value', cxx='trompeloeil::trace_return<Ret>(agent, func, params)', file=MOCK, module='TraceReturnValue',
+        header=r'\n\s*trace_return\(\s*trace_agent& agent,\s*F& func,\s*P& params\)',
+        lean_sig=': List Act', acts=True, try_catch=True, prologue=['let mut acts : List Act := []'], epilogue='return acts', void_result='acts',
+        ret_rules=[(r'^agent\.trace_return\(func\(params\)\)$', 'acts ++ [Act.stmt "return agent.trace_return(func(params))"]')],
+    ),
+]
